@@ -28,7 +28,7 @@ import (
 
 const modPath = "github.com/wolimst/lib-secs2-hsms-go"
 
-var points, mapRanges, unhandledMaps int
+var points, mapRanges, unhandledMaps, syncImports, resetVars, initFuncs int
 
 func pointStmt() ast.Stmt {
 	points++
@@ -176,31 +176,82 @@ func main() {
 				})
 			}
 		}
-		for _, x := range files {
+		for fi, x := range files {
 			f, orig := x.f, x.orig
 			before := points + mapRanges
+			// `import "sync"` becomes the scheduler-aware stand-in (same package name, so the code is untouched)
+			for _, im := range f.Imports {
+				if im.Path.Value == `"sync"` {
+					im.Path.Value = `"` + modPath + `/pkg/vsched/sync"`
+					syncImports++
+				}
+			}
+			var reset []ast.Stmt // re-runs the initialisers of this file's package-level variables
+			var extra []ast.Decl
 			for _, d := range f.Decls {
 				switch x := d.(type) {
 				case *ast.FuncDecl:
 					if x.Body != nil {
 						ast.Walk(visitor{}, x.Body)
 					}
+					if x.Recv == nil && x.Name.Name == "init" {
+						// an init function is part of the initial state: keep it callable so that a reset can re-run it
+						initFuncs++
+						name := fmt.Sprintf("vschedInit%d_%d", fi, initFuncs)
+						x.Name = ast.NewIdent(name)
+						call := &ast.ExprStmt{X: &ast.CallExpr{Fun: ast.NewIdent(name)}}
+						extra = append(extra, &ast.FuncDecl{Name: ast.NewIdent("init"), Type: &ast.FuncType{Params: &ast.FieldList{}}, Body: &ast.BlockStmt{List: []ast.Stmt{call}}})
+						reset = append(reset, call)
+					}
 				case *ast.GenDecl:
 					if x.Tok == token.VAR {
 						for _, sp := range x.Specs {
-							for _, n := range sp.(*ast.ValueSpec).Names {
+							vs := sp.(*ast.ValueSpec)
+							for _, n := range vs.Names {
 								if n.Name != "_" {
 									globals = append(globals, n.Name)
 								}
 							}
-							for _, v := range sp.(*ast.ValueSpec).Values {
+							for _, v := range vs.Values {
 								ast.Walk(visitor{}, v)
+							}
+							var lhs []ast.Expr
+							for _, n := range vs.Names {
+								lhs = append(lhs, ast.NewIdent(n.Name))
+							}
+							switch {
+							case len(vs.Values) == len(vs.Names):
+								for i, n := range vs.Names {
+									if n.Name != "_" {
+										reset = append(reset, &ast.AssignStmt{Lhs: []ast.Expr{ast.NewIdent(n.Name)}, Tok: token.ASSIGN, Rhs: []ast.Expr{vs.Values[i]}})
+										resetVars++
+									}
+								}
+							case len(vs.Values) == 1:
+								reset = append(reset, &ast.AssignStmt{Lhs: lhs, Tok: token.ASSIGN, Rhs: []ast.Expr{vs.Values[0]}})
+								resetVars += len(lhs)
+							case len(vs.Values) == 0 && vs.Type != nil:
+								for _, n := range vs.Names {
+									if n.Name != "_" {
+										z := &ast.DeclStmt{Decl: &ast.GenDecl{Tok: token.VAR, Specs: []ast.Spec{&ast.ValueSpec{Names: []*ast.Ident{ast.NewIdent("vschedZero")}, Type: vs.Type}}}}
+										reset = append(reset, &ast.BlockStmt{List: []ast.Stmt{z, &ast.AssignStmt{Lhs: []ast.Expr{ast.NewIdent(n.Name)}, Tok: token.ASSIGN, Rhs: []ast.Expr{ast.NewIdent("vschedZero")}}}})
+										resetVars++
+									}
+								}
 							}
 						}
 					}
 				}
 			}
-			if points+mapRanges > before {
+			f.Decls = append(f.Decls, extra...)
+			if len(reset) > 0 {
+				name := fmt.Sprintf("vschedReset%d", fi)
+				f.Decls = append(f.Decls,
+					&ast.FuncDecl{Name: ast.NewIdent(name), Type: &ast.FuncType{Params: &ast.FieldList{}}, Body: &ast.BlockStmt{List: reset}},
+					&ast.FuncDecl{Name: ast.NewIdent("init"), Type: &ast.FuncType{Params: &ast.FieldList{}}, Body: &ast.BlockStmt{List: []ast.Stmt{
+						&ast.ExprStmt{X: &ast.CallExpr{Fun: &ast.SelectorExpr{X: ast.NewIdent("vsched"), Sel: ast.NewIdent("RegisterReset")}, Args: []ast.Expr{ast.NewIdent(name)}}}}}})
+			}
+			if points+mapRanges > before || len(reset) > 0 {
 				imp := &ast.GenDecl{Tok: token.IMPORT, Specs: []ast.Spec{&ast.ImportSpec{Path: &ast.BasicLit{Kind: token.STRING, Value: `"` + modPath + `/pkg/vsched"`}}}}
 				f.Decls = append([]ast.Decl{imp}, f.Decls...)
 			}
@@ -236,10 +287,20 @@ func main() {
 	os.MkdirAll(filepath.Dir(dst), 0o755)
 	os.WriteFile(dst, vs, 0o644)
 	overlay["/repo/pkg/vsched/vsched.go"] = dst
+	ss, err := os.ReadFile(filepath.Join(verifRoot, "internal/vschedsrc/sync.go.src"))
+	if err != nil {
+		fmt.Fprintln(os.Stderr, err)
+		os.Exit(2)
+	}
+	dst = filepath.Join(out, "pkg/vsched/sync/sync.go")
+	os.MkdirAll(filepath.Dir(dst), 0o755)
+	os.WriteFile(dst, ss, 0o644)
+	overlay["/repo/pkg/vsched/sync/sync.go"] = dst
 	cnt := fmt.Sprintf("package vsched\n\nfunc init() { StaticPoints = %d }\n", points)
 	os.WriteFile(filepath.Join(out, "pkg/vsched/count.go"), []byte(cnt), 0o644)
 	overlay["/repo/pkg/vsched/count.go"] = filepath.Join(out, "pkg/vsched/count.go")
 	b, _ := json.MarshalIndent(map[string]interface{}{"Replace": overlay}, "", " ")
 	os.WriteFile(filepath.Join(out, "overlay.json"), b, 0o644)
-	fmt.Printf("vinstr: %d scheduling points over %d files, %d map ranges made deterministic (%d left as they are); overlay %s\n", points, len(overlay)-2, mapRanges, unhandledMaps, filepath.Join(out, "overlay.json"))
+	fmt.Printf("vinstr: %d scheduling points over %d files, %d map ranges made deterministic (%d left as they are), %d package-level variables and %d init functions re-initialised before every execution, %d imports of sync replaced by the scheduler-aware stand-in; overlay %s\n",
+		points, len(overlay)-3, mapRanges, unhandledMaps, resetVars, initFuncs, syncImports, filepath.Join(out, "overlay.json"))
 }
